@@ -35,10 +35,51 @@ ASSUME \A m \in MutationTable :
                                  scope |-> m.scope, part |-> PartOf(m)])>>)
 
 \* one record per reachable final state: the union over a case is the set of outcome classes the contract allows
+\* (ord: the order of the extensions; uce: the unhandled critical extensions the object must report)
 ExportCase == stage = "Done" =>
-                PrintT(<<"CASE", ToJson([t |-> c.tpl, m |-> c.mut.name, r |-> Class(Result)])>>)
+                PrintT(<<"CASE", ToJson([t |-> c.tpl, m |-> c.mut.name, o |-> c.ord, u |-> uce, r |-> Class(Result)])>>)
 
 ExportConcat == phase = "done" =>
                   PrintT(<<"CONCAT", ToJson([parts |-> parts,
                                              expect |-> [n |-> list.n, cls |-> ListClass]])>>)
+
+(* ---------------------------------------------------------------------- *)
+(* history machine: shapes, exhaustive check of the laws, random walks     *)
+(* ---------------------------------------------------------------------- *)
+\* six shapes: every name string type, every key type, both validity sides; extension sets that put alternative
+\* names of every kind, interpreted critical extensions and uninterpreted ones next to the three slots
+MCHistShapes == {
+  T({"sanDNS", "sanEmail", "ku", "bc", "ski", "aki"},       <<"printable", "rsa", "utc">>),
+  T({"sanURI", "sanIP", "eku", "aia", "unkNon"},            <<"utf8", "ecdsa", "gen">>),
+  T({"sanDNS", "nc", "pol", "crldp", "unkCrit"},            <<"ia5", "ed25519", "utc">>),
+  T({"sanEmail", "sanIP", "ku"},                            <<"t61bmp", "rsa", "gen">>),
+  T({"sanDNS", "sanURI", "bc"},                             <<"empty", "ecdsa", "utc">>),
+  T({},                                                     <<"printable", "ed25519", "gen">>)}
+\* one shape for the exhaustive check of the laws
+MCHistShapesSmall == {T({"sanDNS", "sanIP", "ku"}, <<"printable", "ecdsa", "utc">>)}
+
+\* mutations an object may carry: none; a name the strict decoder refuses and the lax one reads (issuer, subject);
+\* a lax reading at the DER stage; a non-fatal finding inside an extension; a fatal one in a field; no reading at all
+MCHistMutNames == {"none", "issuerPrintableAt", "subjectPrintableAt", "serialNonMinimal", "sanIPLen5",
+                   "issuerNotSequence", "notBeforeBadMonth"}
+MCHistMutNamesSmall == {"none", "issuerPrintableAt", "issuerNotSequence"}
+
+\* objects that differ from o in at most one thing: one slot, or the mutation
+Near(o) == {x \in world : /\ x.shape = o.shape
+                              /\ Cardinality({s \in Slots : x[s] # o[s]}) + (IF x.mut # o.mut THEN 1 ELSE 0) <= 1}
+
+\* random walk: mostly a neighbour of the last object (or the same one again), mostly through the same kind of
+\* buffer as before; every choice bound once
+HistSimStep ==
+  /\ Len(hist) < HistDepth
+  /\ \E k \in {RandomElement(1..10)}, kb \in {RandomElement(1..6)}, e \in {RandomElement(EntryModes)},
+        far \in {RandomElement(world)}, b0 \in {RandomElement(BufModes)} :
+        IF hist = <<>> THEN Call(e, far, b0)
+        ELSE \E o \in {IF k <= 8 THEN RandomElement(Near(LastObj)) ELSE far} :
+               Call(e, o, IF kb <= 3 THEN hist[Len(hist)].buf ELSE b0)
+HistSimNext == (HistSimStep \/ HistFinish) /\ UNCHANGED <<vars, cvars>>
+
+ObjJson(o) == [shape |-> o.shape, iss |-> o.iss, sub |-> o.sub, san |-> o.san, mut |-> o.mut, cls |-> ClassAlone(o)]
+CallJson(h) == [entry |-> h.entry, buf |-> h.buf, objs |-> [k \in 1..Len(h.objs) |-> ObjJson(h.objs[k])], ret |-> h.ret]
+ExportHist == closed => PrintT(<<"HIST", ToJson([calls |-> [a \in 1..Len(hist) |-> CallJson(hist[a])]])>>)
 =============================================================================
